@@ -22,6 +22,7 @@ type TS struct {
 	Services map[int]agent.ServiceAgentInterface
 	Links    map[[2]int]bool
 	Quiet    map[string]bool // effect kinds not recorded
+	LastConsole map[string]string // the fields of the last console message, as given
 }
 
 func New() *TS {
@@ -148,6 +149,10 @@ func (t *TS) AgentExist(AgentID int) bool {
 	return false
 }
 func (t *TS) AgentConsole(DemonID string, CommandID int, Output map[string]string) {
+	t.LastConsole = map[string]string{}
+	for k, v := range Output {
+		t.LastConsole[k] = v
+	}
 	t.eff("console", "%s cmd=%d %s", DemonID, CommandID, canonMap(Output))
 }
 func (t *TS) EventAppend(event packager.Package) []packager.Package {
